@@ -32,7 +32,7 @@ VARIABLE l
 TraceLog == ndJsonDeserialize("trace.ndjson")
 Ev(e) == l <= Len(TraceLog) /\ TraceLog[l].ev = e /\ l' = l + 1
 E == TraceLog[l]
-Modes == {"reply", "error", "unknown", "undecodable", "flag-more", "flag-oneway", "flag-upgrade", "more2"}
+Modes == {"reply", "error", "unknown", "undecodable", "flag-more", "flag-oneway", "flag-upgrade", "more2", "error-send", "error-upgrade"}
 T08 == /\ Ev("C08") /\ E.mode \in Modes
        /\ E.result_ok
        /\ E.decode_ok      \* the generated Go types take the reference JSON encoding of the declared varlink types
